@@ -4,6 +4,7 @@ package main
 
 import (
 	"fmt"
+	"sort"
 	"go/constant"
 	"go/types"
 	"math/big"
@@ -710,6 +711,44 @@ func (vc *VC) evalCall(e *Expr, env *SpecEnv) SV {
 		return mathBool(app(">=", t, env.old.alloc))
 	case "isnil":
 		return mathBool(vc.nilOf(ev(0)))
+	case "unbox":
+		// unbox(x, "path.Type"): the concrete value of that type held by interface value x
+		x := ev(0)
+		if len(args) != 2 || args[1].Op != "str" {
+			vc.errorf("spec: unbox(x, \"path.Type\")")
+			return mathInt("0")
+		}
+		t := vc.eng.parseGoType(args[1].Name)
+		if t == nil {
+			vc.errorf("spec: unbox: unknown type %s", args[1].Name)
+			return mathInt("0")
+		}
+		return SV{t: vc.unbox(x.t, t), typ: t}
+	case "unchanged":
+		// unchanged(prefix, ...): every ghost whose name starts with prefix. has its entry value
+		var eqs []T
+		for _, a := range args {
+			pre, ok := dottedName(a)
+			if !ok {
+				vc.errorf("spec: unchanged() takes ghost name prefixes")
+				continue
+			}
+			pfx := ghostName(pre)
+			var names []string
+			for k := range vc.ghost {
+				if k == pfx || strings.HasPrefix(k, pfx+"_") {
+					names = append(names, k)
+				}
+			}
+			sort.Strings(names)
+			if len(names) == 0 {
+				vc.errorf("spec: unchanged(%s): no such ghost", pre)
+			}
+			for _, k := range names {
+				eqs = append(eqs, eq(vc.heapGet(env.cur, k), vc.heapGet(env.old, k)))
+			}
+		}
+		return mathBool(and(eqs...))
 	case "upd":
 		a, i, v := ev(0), ev(1), ev(2)
 		r := a
